@@ -12,6 +12,29 @@ import os
 from checklib import sh, parse_kv_line
 
 
+def build_cunit(ctx):
+    """Unity build of cunit_c04.c.  The direct test of the STATIC ts_range_array_add needs that name; if the
+    compile fails only because of it (renamed / inlined helper: a harmless rewrite) the build is repeated
+    without the direct calls — `add` stays covered through the non-static entry points and at system level."""
+    import checklib
+    exe = os.path.join(ctx.workdir, "tsv-cunit_c04")
+    src = os.path.join(checklib.HARNESS, "csrc", "cunit_c04.c")
+    base = ["cc", "-std=c11", "-O1", "-w", "-D_POSIX_C_SOURCE=200112L", "-D_DEFAULT_SOURCE",
+            "-DTSV_REPO_LIB_C=\"%s/lib/src/lib.c\"" % checklib.REPO,
+            "-I", checklib.REPO + "/lib/src", "-I", checklib.REPO + "/lib/src/wasm", "-I", checklib.REPO + "/lib/include", src, "-o", exe]
+    rc, out = sh(base)
+    if rc == 0:
+        ctx.coverage["static_add_direct_calls"] = True
+        return exe
+    rc2, out2 = sh(base[:5] + ["-DTSV_NO_STATIC_ADD"] + base[5:])
+    if rc2 == 0:
+        ctx.coverage["static_add_direct_calls"] = False
+        ctx.notes.append("static ts_range_array_add not reachable by name: direct call sequences skipped (still covered via ts_range_array_get_changed_ranges and ts_tree_get_changed_ranges)")
+        return exe
+    ctx.oblige("build:tsv-cunit_c04", False, out[-1200:])
+    return None
+
+
 def run(ctx):
     ctx.trusted += [
         "hand ports TsVerif/C04/Ranges.lean and Iter.lean of lib/src/get_changed_ranges.c (tied by correspondence: "
@@ -29,7 +52,7 @@ def run(ctx):
     ctx.prove(["TsVerif.C04.Props"], "TsVerif/C04/Audit.lean")
     driver = ctx.build_driver("tsv-c04")
     explorer = ctx.cargo_bin("c04")
-    cunit = ctx.cunit("cunit_c04")
+    cunit = build_cunit(ctx)
     if not (explorer and cunit and os.path.exists(driver)):
         return ctx.finish()
     ops = os.path.join(ctx.workdir, "ops.txt")
@@ -52,11 +75,7 @@ def run(ctx):
         elif line.startswith("F "):
             p = line.split(" ", 3)
             flines[p[1]] = line.rstrip("\n")
-    # which variant of the included-range override does /repo have? (see fixes/C04-range-override-in-padding.diff)
-    src = open(os.path.join(os.environ.get("VERIF_REPO", "/repo"), "lib/src/get_changed_ranges.c")).read()
-    variant = "--override-compared-end" if "iterator_compared_span" in src else ""
-    ctx.coverage["override_variant"] = variant or "as-is"
-    rc, mout = sh("%s %s < %s" % (driver, variant, ops), timeout=3000)
+    rc, mout = sh("%s < %s" % (driver, ops), timeout=3000)
     rc2, cout = sh([cunit, ops], timeout=3000)
     if rc2 != 0:
         ctx.oblige("run:cunit_c04", False, cout[-500:])
@@ -65,7 +84,7 @@ def run(ctx):
         if line.strip():
             cid, kv = parse_kv_line(line)
             impl_f[cid] = kv.get("out")
-    f_cmp = f_bad = 0
+    f_cmp = f_bad = f_skip = 0
     f_kinds = {"add": 0, "isect": 0, "symdiff": 0}
     f_nonempty = 0
     evals = judge_bad = corr_bad = 0
@@ -74,6 +93,19 @@ def run(ctx):
     agg = {"reported_ranges": 0, "diff_bytes": 0, "overreported_bytes": 0, "range_list_changed": 0,
            "trace_admissible_ok": 0, "match_sound_ok": 0, "matched_spans": 0, "add_calls": 0}
     langs = {}
+    # BEHAVIOURAL choice of the model variant (Iter.lean `fixed`): the driver reports, per case, whether the port with
+    # the fixed included-range override (corrF) and the port with the original one (corrA) reproduce the
+    # implementation; the variant of /repo is the one that wins on the cases where the two differ (the corpus holds
+    # the distinguishing inputs of the old defect).  No source text is inspected.
+    nF = nA = 0
+    for line in mout.split("\n"):
+        if " corrF=" in line:
+            _, kv0 = parse_kv_line(line)
+            if kv0.get("corrF") != kv0.get("corrA"):
+                nF += kv0.get("corrF") == "ok"
+                nA += kv0.get("corrA") == "ok"
+    variant = "asis" if nA > nF else "fixed"
+    ctx.coverage["override_variant"] = {"chosen": variant, "distinguishing_cases": nF + nA, "fixed_wins": nF, "asis_wins": nA}
     for line in mout.split("\n"):
         if not line.strip():
             continue
@@ -84,7 +116,9 @@ def run(ctx):
             f_kinds[op] = f_kinds.get(op, 0) + 1
             if kv.get("out") not in ("-", "0"):
                 f_nonempty += 1
-            if impl_f.get(cid) != kv.get("out"):
+            if impl_f.get(cid) == "SKIP":
+                f_skip += 1
+            elif impl_f.get(cid) != kv.get("out"):
                 f_bad += 1
                 ctx.violation("corr", "Lean port and C function disagree on %s: model=%s impl=%s" % (op, kv.get("out"), impl_f.get(cid)),
                               {"case": cid, "line": flines[cid], "model": kv.get("out"), "impl": impl_f.get(cid),
@@ -114,7 +148,8 @@ def run(ctx):
             judge_bad += 1
             ctx.violation("judge", "C04 judge failed on the implementation's changed ranges: " + kv["judge"], payload,
                           fingerprint={"lang": lang, "clause": kv["judge"][:30], "cause": kv.get("cause", "other")})
-        elif kv["corr"] != "ok":
+        elif kv.get("corrF" if variant == "fixed" else "corrA", kv["corr"]) != "ok":
+            kv["corr"] = kv.get("corrmsg", "DIFF")
             corr_bad += 1
             payload["correspondence"] = "TsVerif.C04.treeChangedRanges vs lib/src/tree.c:ts_tree_get_changed_ranges"
             ctx.violation("corr", "Lean port and ts_tree_get_changed_ranges disagree: " + kv["corr"][:300], payload,
